@@ -135,11 +135,11 @@ def main(argv=None):
     print(f"[{prop}/{args.tier}] jobs={len(results)} obligations={ob} discharged={di} paths={sum(r['paths'] for r in results)} "
           f"solver={sum(r['solver_s'] for r in results):.1f}s wall={wall:.1f}s validated_traces={tv} "
           f"violations={violations} known={len(known)} harness_errors={len(harness_errors)}")
+    for h in harness_errors[:8]:
+        print("HARNESS-ERROR:", h[:3000], file=sys.stderr)
     if violations:
         return core.EXIT_VIOLATION
     if harness_errors:
-        for h in harness_errors[:8]:
-            print("HARNESS-ERROR:", h[:3000], file=sys.stderr)
         return core.EXIT_HARNESS
     return core.EXIT_OK
 
